@@ -217,16 +217,28 @@ mod verif_c13_general_handler {
     }
 
     // ================================================================ install
-    // Quick tier: prior table = `new()` (bounded stand-ins, 100 s).
+    // Quick tier: prior table = `new()` (bounded stand-ins).
     // Thorough tier: ARBITRARY prior table (250-300 s each).
 
+    /// Quick-tier replacement for the machine MODEL's `mov r, cs` (not for crate
+    /// code): same value, no event logging. Measured on the symbolic-range install:
+    /// 309,690 -> 190,407 symex steps (76 s -> 51 s); the 256 logged `mov r, cs`
+    /// events are irrelevant to the table contents. The thorough-tier harnesses
+    /// keep the unmodified model.
+    fn mov_from_seg_quiet(seg: u8) -> u16 {
+        if seg != verif_hw::SEG_CS {
+            verif_hw::unknown_asm();
+        }
+        verif_hw::m().cs
+    }
+
     /// `lo..=hi`, every (lo, hi) pair, into a `new()` table.
-    //@ obligation C13 C13.install_new_table.present_exactly_non_reserved_in_range bounded="prior table = InterruptDescriptorTable::new(); arbitrary prior table: C13.install.* (thorough tier)"
-    //@ obligation C13 C13.install_new_table.installed_entry_is_default_interrupt_gate bounded="prior table = InterruptDescriptorTable::new()"
-    //@ obligation C13 C13.install_new_table.all_other_entries_untouched bounded="prior table = InterruptDescriptorTable::new()"
+    //@ obligation C13 C13.install_new_table.present_exactly_non_reserved_in_range bounded="prior table = InterruptDescriptorTable::new(), machine model's CS read without event log; arbitrary prior table and full model: C13.install.* (thorough tier)"
+    //@ obligation C13 C13.install_new_table.installed_entry_is_default_interrupt_gate bounded="prior table = InterruptDescriptorTable::new(), machine model's CS read without event log"
+    //@ obligation C13 C13.install_new_table.all_other_entries_untouched bounded="prior table = InterruptDescriptorTable::new(), machine model's CS read without event log"
     #[kani::proof]
-    #[kani::unwind(2)]
     #[kani::stub(crate::addr::VirtAddr::new, virt_addr_new_unchecked)]
+    #[kani::stub(crate::verif_hw::mov_from_seg, mov_from_seg_quiet)]
     fn c13_install_range_inclusive_new_table() {
         verif_hw::reset_symbolic();
         let cs = verif_hw::m().cs;
